@@ -1,11 +1,12 @@
 import Frp.Model.HttpRewrite
 import Frp.Model.HttpPool
+import Frp.Model.HttpTime
 import Frp.Lemmas.HttpRewrite
 /-
   C02 — HTTP proxying preserves requests and responses apart from declared rewrites.   (partial)
 
   Models: Frp/Model/HttpRewrite.lean (what the backend / the user receives), Frp/Model/HttpPool.lean
-  (idle backend connections).  All statements are for EVERY request, header map, route config.
+  (idle backend connections), Frp/Model/HttpTime.lean (which clocks can end an exchange early).  All statements are for EVERY request, header map, route config.
 
   What is proved
     * request line, body and framing are not touched (`request_line_body_untouched`);
@@ -18,6 +19,12 @@ import Frp.Lemmas.HttpRewrite
       irrelevant otherwise (`configured_dup_witness`);
     * responses: status and body untouched, headers likewise per key (`response_*`);
     * `errorMap` is total with exactly two answers;
+    * time (Frp/Model/HttpTime.lean): the only clock on an exchange is the response-header timeout —
+      for every time line a header block inside the timeout means every body piece of both directions
+      and every tunnel piece is relayed (`streamed_exchange_complete`, `upgrade_tunnel_transparent`,
+      `connect_tunnel_transparent`), a late one means 504 exactly `timeout` after the request was
+      written (`header_timeout_bounded`); any deadline on the whole exchange would cut some stream
+      and some tunnel (`ctx_deadline_cuts_stream`, `ctx_deadline_cuts_tunnel`);
     * the synthetic pool host determines (domain, location, routeUser, endpoint)
       (`poolKey_injective`, `distinct_routes_distinct_keys`).
 
@@ -812,6 +819,154 @@ theorem model_respHolds (rc : Option RouteCfg) (m : Str) (r : Resp) :
       by_cases hx : k ∈ [kCL, kTE, kDate, kCT]
       · exact Or.inl hx
       · exact Or.inr (response_configured rc m r k v hv hx)
+
+/-! ## time: streamed bodies, tunnels, the response-header timeout
+
+  Model: Frp/Model/HttpTime.lean.  `L.reqCtx = none` is what pkg/util/vhost/http.go does (the request
+  context gets values, never a deadline); `frpLimits` is that instance.  The clauses are stated for
+  EVERY time line: any work-connection wait, any pace of upload and download, any idle period inside
+  a tunnel — in particular exchanges that last (much) longer than the response-header timeout. -/
+section Time
+open HttpTime
+
+theorem deliver_none (t : Nat) (ps : List Piece) :
+    deliver none t ps = (cat ps, t + dur ps, false) := by
+  induction ps generalizing t with
+  | nil => simp [deliver, cat, dur]
+  | cons p ps ih => simp [deliver, expired, ih, cat, dur, Nat.add_assoc]
+
+/-- the configured timeout is always a positive finite time (`<= 0` means 60 s): an exchange whose
+    backend stays silent is never waited for for ever -/
+theorem headerTimeout_pos (s : Int) : 0 < headerTimeoutMs s := by
+  unfold headerTimeoutMs
+  split
+  · omega
+  · omega
+
+/-- **streamed bodies of any duration**: if the response header block arrives within the timeout,
+    the backend receives every request-body byte and the user every response-body byte, in order,
+    and the user's read ends at the end of the body — whatever the dial time, the pace of the upload
+    and the pace of the download (nothing bounds the exchange as a whole) -/
+theorem streamed_exchange_complete (L : Limits) (hL : L.reqCtx = none) (x : Exchange) (h : Nat)
+    (hth : x.think = some h) (hlt : h < L.respHeader) :
+    relay L x = { answer := .backend, answerAt := x.dial + dur x.upload + h, up := cat x.upload,
+                  down := cat x.download, complete := true } := by
+  simp [relay, hL, expired, deliver_none, hth, hlt]
+
+/-- the same for frp's own limits, any `vhostHTTPTimeout` -/
+theorem frp_streamed_exchange_complete (s : Int) (x : Exchange) (h : Nat)
+    (hth : x.think = some h) (hlt : h < headerTimeoutMs s) :
+    (relay (frpLimits s) x).answer = .backend ∧ (relay (frpLimits s) x).up = cat x.upload ∧
+    (relay (frpLimits s) x).down = cat x.download ∧ (relay (frpLimits s) x).complete = true := by
+  rw [streamed_exchange_complete (frpLimits s) rfl x h hth hlt]
+  simp
+
+/-- **response-header timeout**: a backend that does not send its header block within the timeout
+    gives the 504 answer exactly `respHeader` after the request was written (bounded, no hang); the
+    request body was still delivered in full -/
+theorem header_timeout_bounded (L : Limits) (hL : L.reqCtx = none) (x : Exchange)
+    (hth : x.think = none ∨ ∃ h, x.think = some h ∧ L.respHeader ≤ h) :
+    (relay L x).answer = .gatewayTimeout ∧ (relay L x).answerAt = x.dial + dur x.upload + L.respHeader ∧
+    (relay L x).up = cat x.upload ∧ (relay L x).down = [] := by
+  rcases hth with hn | ⟨h, hs, hle⟩
+  · simp [relay, hL, expired, deliver_none, hn, giveUpAt]
+  · have : ¬ h < L.respHeader := by omega
+    simp [relay, hL, expired, deliver_none, hs, this, giveUpAt]
+
+/-- the timeout is about the header block ONLY: which of the two answers the user gets is decided
+    by `think` alone -/
+theorem answer_backend_iff (L : Limits) (hL : L.reqCtx = none) (x : Exchange) :
+    (relay L x).answer = .backend ↔ ∃ h, x.think = some h ∧ h < L.respHeader := by
+  constructor
+  · intro ha
+    cases hth : x.think with
+    | none => rw [(header_timeout_bounded L hL x (Or.inl hth)).1] at ha; cases ha
+    | some h =>
+      by_cases hlt : h < L.respHeader
+      · exact ⟨h, rfl, hlt⟩
+      · rw [(header_timeout_bounded L hL x (Or.inr ⟨h, hth, by omega⟩)).1] at ha; cases ha
+  · rintro ⟨h, hth, hlt⟩
+    rw [streamed_exchange_complete L hL x h hth hlt]
+
+/-- **why `reqCtx = none` is needed**: under ANY deadline on the request context there is an
+    exchange whose header block arrives at once and whose body is nevertheless cut (a whole-exchange
+    deadline is not a response-header timeout) -/
+theorem ctx_deadline_cuts_stream (L : Limits) (d : Nat) (hL : L.reqCtx = some d) (hpos : 0 < L.respHeader) :
+    ∃ x : Exchange, x.think = some 0 ∧ (relay L x).complete = false ∧
+      (relay { L with reqCtx := none } x).complete = true := by
+  refine ⟨{ dial := 0, upload := [], think := some 0, download := [⟨d, [0]⟩] }, rfl, ?_, ?_⟩
+  · by_cases hd : d = 0
+    · simp [relay, hL, expired, hd]
+    · have h0 : ¬ d ≤ 0 := by omega
+      simp [relay, hL, expired, deliver, hpos, h0]
+  · rw [streamed_exchange_complete { L with reqCtx := none } rfl _ 0 rfl hpos]
+
+theorem tunnel_none (t : Nat) (ps : List TPiece) :
+    tunnel none t ps = (ps.map (fun p => (p.dir, p.data)), false) := by
+  induction ps generalizing t with
+  | nil => simp [tunnel]
+  | cons p ps ih => simp [tunnel, expired, ih]
+
+/-- **CONNECT tunnels** (`connectHandler`, no clock at all): every piece of either direction is
+    relayed, in order, whatever the idle periods -/
+theorem connect_tunnel_transparent (t : Nat) (ps : List TPiece) :
+    (tunnel none t ps).1 = ps.map (fun p => (p.dir, p.data)) ∧ (tunnel none t ps).2 = false := by
+  rw [tunnel_none]; exact ⟨rfl, rfl⟩
+
+/-- **protocol upgrades**: once the 101 arrived within the timeout the tunnel relays every piece of
+    either direction, in order, whatever the idle periods and however long it stays open -/
+theorem upgrade_tunnel_transparent (L : Limits) (hL : L.reqCtx = none) (dial think : Nat)
+    (hlt : think < L.respHeader) (ps : List TPiece) :
+    upgrade L dial think ps = (.backend, ps.map (fun p => (p.dir, p.data)), false) := by
+  unfold upgrade
+  rw [streamed_exchange_complete L hL _ think rfl hlt]
+  simp [hL, tunnel_none]
+
+/-- under any deadline on the request context some upgraded connection is closed while in use -/
+theorem ctx_deadline_cuts_tunnel (L : Limits) (d : Nat) (hL : L.reqCtx = some d) (hpos : 0 < L.respHeader) :
+    ∃ ps : List TPiece, (upgrade L 0 0 ps).2.2 = true ∧
+      (upgrade { L with reqCtx := none } 0 0 ps).2.2 = false := by
+  refine ⟨[⟨d, .up, [0]⟩], ?_, ?_⟩
+  · by_cases hd : d = 0
+    · simp [upgrade, relay, hL, expired, hd]
+    · have h0 : ¬ d ≤ 0 := by omega
+      simp [upgrade, relay, hL, expired, deliver, hpos, h0, tunnel]
+  · rw [upgrade_tunnel_transparent { L with reqCtx := none } rfl 0 0 hpos]
+
+/-- executable predicate for the driver, evaluated on what the implementation reported for an
+    exchange with time line outcome `o` (an untimed exchange is the time line without gaps):
+    `reached` = the backend recorded the complete request, `st504` = the user got 504 with an empty
+    body, `reqOk` / `respOk` = `freshB` + `reqHolds` / `respHolds` (bodies byte for byte) on what the
+    backend / the user received, `endOk` = the user's read ended at the end of the body.
+    When the model says the backend answers in time, the backend must have been reached and the
+    whole answer relayed; a 504 is acceptable only when the header block is late. -/
+def timedHolds (o : Outcome) (reached st504 reqOk respOk endOk : Bool) : Bool :=
+  match o.answer with
+  | .backend => reached && reqOk && respOk && endOk && o.complete
+  | .gatewayTimeout => st504 && (!reached || reqOk)
+
+/-- the predicate never asks for more than the model delivers: for frp's limits and a header block
+    inside the timeout it reduces to "reached, both predicates hold, body ended properly" -/
+theorem timedHolds_frp (s : Int) (x : Exchange) (h : Nat) (hth : x.think = some h) (hlt : h < headerTimeoutMs s)
+    (st504 reqOk respOk endOk : Bool) :
+    timedHolds (relay (frpLimits s) x) true st504 reqOk respOk endOk = (reqOk && respOk && endOk) := by
+  rw [streamed_exchange_complete (frpLimits s) rfl x h hth hlt]
+  simp [timedHolds]
+
+/-- non-vacuity: a download of 2.5 s under `vhostHTTPTimeout = 1` is relayed in full by the model of
+    the code as it is, and is cut after the pieces of the first second under a 1 s context deadline -/
+example :
+    let x : Exchange := { dial := 0, upload := [⟨700, [1]⟩, ⟨700, [2]⟩], think := some 100,
+                              download := [⟨0, [3]⟩, ⟨800, [4]⟩, ⟨800, [5]⟩, ⟨900, [6]⟩] }
+    (relay (frpLimits 1) x).down = [3, 4, 5, 6] ∧ (relay (frpLimits 1) x).complete = true ∧
+    (relay (frpLimits 1) x).up = [1, 2] ∧
+    (relay { respHeader := 1000, reqCtx := some 3000 } x).down = [3, 4] ∧
+    (relay { respHeader := 1000, reqCtx := some 3000 } x).complete = false ∧
+    (relay (frpLimits 1) { x with think := some 1000 }).answer = .gatewayTimeout ∧
+    (relay (frpLimits 1) { x with think := some 1000 }).answerAt = 2400 := by
+  decide +kernel
+
+end Time
 
 /-! ## non-vacuity -/
 
